@@ -177,7 +177,8 @@ func vHostileInner(c vHClass) (out [][]byte, headerLen int) {
 		body = append(body, make([]byte, 60000)...)
 		out, headerLen = append(out, body), len(h)
 	case "handoff/flood":
-		out = append(out, append([]byte{byte(userMsg)}, []byte("flood")...))
+		// a flood of user messages (low-priority queue), and a flood of alive messages (high-priority queue)
+		out = append(out, append([]byte{byte(userMsg)}, []byte("flood")...), vValidAlive())
 	case "usermsg/cap":
 		h := append([]byte{byte(userMsg)}, vMsgpack(&userMsgHeader{UserMsgLen: maxUserMsgBytes + 1})...)
 		out, headerLen = append(out, h), len(h)
@@ -301,6 +302,13 @@ func vRunHostile(t *testing.T, s *vSink, id int, c vHClass) []vHLine {
 			B.d.mu.Lock()
 			B.d.gate = gate
 			B.d.mu.Unlock()
+			if vi == 1 {
+				// the application is busy with one user message; the flood itself is membership traffic
+				stall := vHostileWire(c, cfg, append([]byte{byte(userMsg)}, []byte("stall")...))
+				B.tr.packetCh <- &Packet{Buf: stall, From: &net.UDPAddr{IP: net.IPv4(10, 0, 0, 66), Port: 7946}, Timestamp: time.Now()}
+				time.Sleep(time.Millisecond)
+				synctest.Wait()
+			}
 			for i := 0; i < 3*l.Qcap; i++ {
 				B.tr.packetCh <- &Packet{Buf: wire, From: &net.UDPAddr{IP: net.IPv4(10, 0, 0, 66), Port: 7946}, Timestamp: time.Now()}
 				if i%64 == 63 {
